@@ -30,7 +30,7 @@ ASSUMPTIONS = [
 ]
 REQUIRED_CLASSES = ["view-argument", "never-read-argument", "signed-numbers", "scientific-floats", "list-valued-column", "genotype-column", "merge-distance>0", "typed-info",
                     "lazy-chunk", "strops", "intervals", "sequence", "encoding", "genomic", "table"]
-BOUNDS = {"quick": "60 calls per registry entry (62 entries) plus 120 lazily read chunks per format (12 formats)", "thorough": "1500 calls per entry, 2500 chunks per format"}
+BOUNDS = {"quick": "60 calls per registry entry (55 entries) plus 120 lazily read chunks per format (12 formats)", "thorough": "1500 calls per entry, 2500 chunks per format"}
 BUDGET_S = {"quick": 200, "thorough": 1500}
 
 
